@@ -42,6 +42,10 @@ var c20Stmts = []string{
 	"{{ range %E }}%S{{ else }}%S{{ end }}",
 	"{{ range i, v := %E }}%S{{ end }}",
 	"{{ range i = %E }}%S{{ end }}",
+	"{{ range i, v := %E }}%S{{ else }}%S{{ end }}",
+	"{{ range v = %E }}%S{{ else }}%S{{ end }}",
+	"{{ if y := %E; y }}%S{{ else }}%S{{ end }}",
+	"{{ if y := %E; y }}a{{ else if z := %E; z }}%S{{ end }}",
 	"{{ block b1() }}%S{{ end }}",
 	"{{ block b2(p=%E, q) %E }}%S{{ content }}%S{{ end }}",
 	"{{ yield y1() }}",
